@@ -19,9 +19,9 @@ FLOORS = {"had_failure": (0.1, "pm"), "suspension_finished": (0.03, "pm"), "batc
 
 
 def plan(tier):
-    n = 4000 if tier == "quick" else 120000
+    n = 4000 if tier == "quick" else 50000
     return [{"kind": "hypothesis", "examples": n},
-            {"kind": "hypothesis", "examples": 1000 if tier == "quick" else 40000, "module": "verif.checks.c03_sim", "shard_base": 100}]
+            {"kind": "hypothesis", "examples": 1000 if tier == "quick" else 15000, "module": "verif.checks.c03_sim", "shard_base": 100}]
 
 
 def strategy(tier):
